@@ -256,6 +256,13 @@ def check_site(r, rule, nn, site, mode, spaceA, spaceB, self_policy, equal_lengt
         rep.ob(rule + "-FGA", con, not unflagged, "positions are compared only under the pdist flag (set by callers only when query and reference are the same object)", where,
                expected="if pdist_mode and i == j: skip", found="unconditional i != j filter" if unflagged else "flagged" if flagged else "none", key=f"{K} flagged self-exclusion")
         site.extra["flagged"] = bool(flagged)
+        for c in flagged:
+            fl = strip(c[4])
+            if head(fl) == "param":
+                dflt = next((p[1] for p in nn.summary(q).params if p[0] == fl[1]), None)
+                # a caller who does not say so is searching two different collections: the switch must be off unless asked for
+                rep.ob(rule + "-FGA", con, dflt is not None and strip(dflt) == FALSE, f"the self-exclusion switch '{fl[1]}' is off by default (equal positions in two collections are ordinary pairs)", where,
+                       expected=f"{fl[1]}=False", found=f"{fl[1]}={show(dflt, 20) if dflt is not None else '<required>'}", key=f"{K} flag default")
     elif self_policy == "required":
         rep.ob(rule + "-FGA", con, bool(unflagged) or site.extra.get("self_excluded"), "a position is never reported as its own neighbour", where, expected="i != j filter before the distance stage",
                found="present" if (unflagged or site.extra.get("self_excluded")) else "missing", key=f"{K} self-exclusion present")
@@ -1592,6 +1599,28 @@ def check_make_output(r, rule):
     check_equiv(r.rep, rule, q, "'triplets' returns the triplet list, 'coo_matrix' the COO matrix, anything else ('ndarray') its dense form", code, sp, where, eq=eq, key="dispatch")
     if not state["coo"]:
         raise AnalysisBroken(f"{q}: no coo_matrix construction found (anchor vanished)")
+
+
+def check_make_output_triplets(r, rule):
+    """For the engines whose statement speaks about triplets: _make_output(..., 'triplets', ...) hands the triplet list back as it is
+    (list(triplets) or the list itself) - nothing converted, dropped or reordered on the way out."""
+    from ..ssa import leaves
+    from ..rules import lift_ite
+    nn = get_nn(r)
+    q = MOD + "_make_output"
+    s = nn.summary(q)
+    r.rep.analysed(q)
+    trip, ot = ("param", s.params[0][0]), ("param", s.params[1][0])
+    where = wh(r, q, s.func.node)
+    hits = []
+    for guards, leaf in leaves(lift_ite(fold(strip_all(s.ret), {ot: const("triplets")}))):
+        t = strip(leaf)
+        if head(t) == "raise":
+            continue
+        hits.append(t)
+    ok = bool(hits) and all(t == trip or (is_call(t, "builtins.list") and len(t[2]) == 1 and strip(t[2][0]) == trip) for t in hits)
+    r.rep.ob(rule, q, ok, "output_type='triplets' returns the triplets as they were found", where, expected="triplets (as a list)", found="; ".join(show(t, 60) for t in hits[:3]) or "no value", key="triplets passthrough")
+    r.rep.floor(rule, 1)
 
 
 def _triplets_leaf(code, trip):
